@@ -8,6 +8,7 @@ import (
 	"strings"
 
 	"github.com/google/badwolf/bql/table"
+	"github.com/google/badwolf/storage"
 	"github.com/google/badwolf/triple"
 	"github.com/google/badwolf/triple/literal"
 	"github.com/google/badwolf/triple/predicate"
@@ -223,7 +224,25 @@ type e2eCase struct {
 	Limit    *int64     `json:"limit,omitempty"`
 	Base     execResult `json:"base"`
 	Res      execResult `json:"res"`
+	PdMask   []bool     `json:"pd_mask"` // push-down shapes: per graph triple in driver order, does it match the clause
 	Extra    interface{} `json:"extra,omitempty"`
+}
+
+// driverOrder lists the triples of ?g in the order the driver returns them (memory: sorted by Triple.String()).
+func driverOrder(ctx context.Context, st storage.Store) []*triple.Triple {
+	g, err := st.Graph(ctx, "?g")
+	if err != nil {
+		panic(err)
+	}
+	ch := make(chan *triple.Triple, 1000)
+	if err := g.Triples(ctx, storage.DefaultLookup, ch); err != nil {
+		panic(err)
+	}
+	var out []*triple.Triple
+	for t := range ch {
+		out = append(out, t)
+	}
+	return out
 }
 
 var subjects = [][2]string{{"/u", "a"}, {"/u", "b"}, {"/u", "c"}, {"/t", "d"}, {"/t", "a"}}
@@ -392,6 +411,18 @@ func genE2E12(r *rand.Rand) e2eCase {
 	}
 	c.Q = q + ";"
 	c.Base, _ = runQuery(ctx, st, c.BaseQ)
+	if c.Shape == "full-scan" || c.Shape == "anchor" {
+		for _, t := range driverOrder(ctx, st) {
+			m := true
+			if c.Shape == "anchor" {
+				m = string(t.Predicate().ID()) == "t" && t.Predicate().Type() == predicate.Temporal
+			}
+			c.PdMask = append(c.PdMask, m)
+		}
+		if c.PdMask == nil {
+			c.PdMask = []bool{}
+		}
+	}
 	var stm interface{ OrderByConfig() table.SortConfig }
 	res, s := runQuery(ctx, st, c.Q)
 	c.Res = res
